@@ -210,7 +210,7 @@ def h_multi(n: int, s1: int, r1: int, c: int, d: int, top: bool, which: int):
 BOUNDS = {
     'quick': 'text length n<=3 (1 builder step) / n=2 (2 builder steps) / n=3 (3 builder steps, first on the whole text, new setting underline); two-setting lists on 1-step receivers; builder settings from a 4-setting alphabet '
              '(red, blue, bold, no_bold_faint) on all canonical ranges; start/end: ALL integers and None; topmost both',
-    'thorough': 'n<=4 (1 step, 8-setting alphabet), n<=3 (2 steps, 4-setting alphabet); start/end ALL integers and None',
+    'thorough': 'n<=3 (1 step, 8-setting alphabet), n=3 (2 steps over red/blue/bold, second topmost), n=3 (3 steps, new setting red/underline on canonical ranges); start/end ALL integers and None',
 }
 OUTSIDE = 'receivers needing more than 2 builder steps; settings outside the alphabet; texts longer than the bound'
 ASSUMPTIONS = ['text content is irrelevant to apply_formatting (concrete letters are used)']
@@ -245,15 +245,15 @@ def obligations(tier):
         obs.append(Ob('multi/n2', h_multi, dict(n=2), need=('nonempty', 'multi-conflict'), budget=600, bounds='n=2, 3 two-setting lists', kinds=KINDS))
         obs.append(Ob('multi/n3', h_multi, dict(n=3), need=('nonempty', 'multi-conflict'), budget=900, bounds='n=3, 3 two-setting lists', kinds=KINDS))
     else:
-        for n in (1, 2, 3, 4):
+        for n in (1, 2, 3):
             for s1 in range(8):
                 obs.append(Ob('apply/b1x8/n%d/s%d' % (n, s1), h_apply,
                               dict(n=n, k=1, s1=s1, s2=0, r2=0, t2=False, sigma_n=8),
                               need=('nonempty', 'empty-range'), budget=1500,
                               bounds='n=%d, 1 builder step, 8-setting alphabet' % n, kinds=KINDS))
-        for s1 in range(4):
+        for s1 in range(3):
             for r1 in range(len(ranges(3))):
-                obs.append(Ob('apply/b2/n3/s%d/r%d' % (s1, r1), h_apply, dict(n=3, k=2, s1=s1, r1=r1),
+                obs.append(Ob('apply/b2/n3/s%d/r%d' % (s1, r1), h_apply, dict(n=3, k=2, s1=s1, r1=r1, t2=True, sigma_n=3, op_sigma=(0, 2)),
                               need=('nonempty',), budget=2400,
                               bounds='n=3, 2 builder steps, first setting #%d on range #%d' % (s1, r1), kinds=KINDS))
         for s1 in range(3):
